@@ -26,8 +26,10 @@ def runOp (args impl : List String) : Option (String × String) := do
   -- when triggering stops (duration end or the caller's cancel); in-flight iterations may be abandoned
   -- only after the completion timeout has run from that moment
   let stopAt := if an "cancel" "-1" ≥ 0 ∧ an "cancel" "-1" < an "dur" "600" then an "cancel" "-1" else an "dur" "600"
-  let abandonedEarly := n "inflight" > 0 ∧ maxit = 0 ∧ arg "mode" "constant" ≠ "file" ∧
-    n "ret" < stopAt + an "timeout" "3000" - 60
+  -- (a config-file run also ends with its last stage: the trigger's own duration, reported by the harness)
+  let stopAtF := if arg "mode" "constant" = "file" ∧ n "trigdur" > 0 ∧ n "trigdur" < stopAt then n "trigdur" else stopAt
+  let abandonedEarly := n "inflight" > 0 ∧ maxit = 0 ∧ (arg "mode" "constant" ≠ "file" ∨ n "trigdur" > 0) ∧
+    n "ret" < stopAtF + an "timeout" "3000" - 60
   -- C05 (time): the Deadline model on this case's parameters (ms → ns); the limit and the drain are the run's own
   let msI (x : Int) : Int := x * 1000000
   let dcfg : Deadline.Cfg := { maxDur := msI (an "dur" "600"), trigDur := msI (max 0 (n "trigdur")), timeout := msI (an "timeout" "3000"),
@@ -111,6 +113,18 @@ def runOp (args impl : List String) : Option (String × String) := do
       else if n "tdOrder" ≠ 1 then "FAIL setup-cleanups-not-once-in-reverse-order"
       else if n "cleanupEarly" > 0 then "FAIL iteration-cleanup-ran-before-its-body-finished"
       else if ¬blocked ∧ n "inflight" = 0 ∧ n "cleanupBad" > 0 then "FAIL iteration-cleanup-did-not-run-exactly-once"
+      else "ok"
+    else if prop = "C17" then
+      -- measured around the body: every recorded duration is at least the shortest body (the body sleeps), none reaches
+      -- into the cleanups (cleanup ≥ 600 ms against a bound of body + cleanup/2: a stall of 300 ms would be needed to
+      -- cross it), and the exported summary holds the same durations for the same iterations, also in a second run
+      let bodyUs := maxBody * 1000
+      let cleanupUs := an "cleanup" "0" * 1000
+      if res.getD 0 0 = 0 then "FAIL no-successful-iteration-recorded"
+      else if n "durmin" < bodyUs then "FAIL recorded-duration-shorter-than-the-body"
+      else if cleanupUs ≥ 600000 ∧ n "durmax" ≥ bodyUs + cleanupUs / 2 then "FAIL recorded-duration-includes-cleanups"
+      else if met.getD 0 0 ≠ res.getD 0 0 ∨ met.getD 1 0 ≠ res.getD 1 0 then "FAIL exported-iteration-metric-does-not-hold-this-run's-iterations"
+      else if n "metsumus" < (res.getD 0 0) * bodyUs then "FAIL exported-durations-shorter-than-the-bodies"
       else "ok"
     else if prop = "C09" then
       if out "cadence" ≠ "ok" then s!"FAIL evaluation-earlier-than-one-per-interval-{out "cadence"}"
